@@ -377,9 +377,24 @@ def fallible_after_mutation(ctx, c, op, field, o):
             pcache[func] = d
         return pcache[func]
 
+    def original(func, x):
+        """x, or -- when x belongs to a statement that the copy-propagation pre-pass rewrote -- the node of the source at the same position"""
+        par = parents_of(func)
+        if x in par or x is func:
+            return x
+        for cand in par:
+            if type(cand) is type(x) and getattr(cand, 'lineno', None) == getattr(x, 'lineno', -1) and getattr(cand, 'col_offset', None) == getattr(x, 'col_offset', -1):
+                return cand
+        # a name replaced by the field it was stored into: the original is a Name at that position
+        for cand in par:
+            if isinstance(cand, ast.expr) and getattr(cand, 'lineno', None) == getattr(x, 'lineno', -1) and getattr(cand, 'col_offset', None) == getattr(x, 'col_offset', -1):
+                return cand
+        return x
+
     def loop_of(frame, x):
         """innermost enclosing `for` of x in its function: (canonical mapping text, {loop var: canonical name})"""
         par = parents_of(frame.func)
+        x = original(frame.func, x)
         cur = x
         while cur in par:
             p_ = par[cur]
@@ -407,7 +422,7 @@ def fallible_after_mutation(ctx, c, op, field, o):
         fr, node = frame, x
         first = True
         while fr is not None and node is not None:
-            for t, tr in enclosing_guards(fr.func, node):
+            for t, tr in enclosing_guards(fr.func, original(fr.func, node)):
                 t2 = Ren(ren).visit(_copy.deepcopy(t)) if first else t
                 r = cmp_norm(N, t2, FrameEnv(fr), tr)
                 if r:
